@@ -2150,6 +2150,20 @@ def _handle_assignment_ast(
                     )
                     nodes.append(VarAssign(name=name, expr=tmp_names[idx]))
                     continue
+                if is_global_scope:
+                    # a new name bound at file scope is a global like any other
+                    # top-level variable, also when the statement mixes it with
+                    # names that exist already
+                    globals_list.append(
+                        VarDecl(
+                            name=name,
+                            c_type=cpp_type,
+                            expr=_default_value_for_type(cpp_type),
+                            global_scope=True,
+                        )
+                    )
+                    nodes.append(VarAssign(name=name, expr=tmp_names[idx]))
+                    continue
                 nodes.append(
                     VarDecl(
                         name=name,
